@@ -15,6 +15,7 @@ import (
 func init() {
 	vRegister("VerifC09TagRange", VerifC09TagRange)
 	vRegister("VerifC09LocateBinaries", VerifC09LocateBinaries)
+	vRegister("VerifC06TagRange", VerifC06TagRange)
 }
 
 // vDigits returns a string of n symbolic decimal digits.
@@ -101,4 +102,66 @@ func VerifC09LocateBinaries() {
 	locateBinaries(p, &source{}, &vFailObjTool{}, &vNullUI{})
 	vReach("C09.locate:returned")
 	vObserve(m.File)
+}
+
+// VerifC06TagRange (property C06): a numeric range filter keeps exactly the
+// values inside the range, bounds included, after unit conversion.
+func VerifC06TagRange() {
+	nd := 1 + vChoice("digits", 3)
+	lo := vDigits("lo", nd)
+	unit := []string{"", "kb"}[vChoice("unit", 2)]
+	form := vChoice("form", 4)
+	var filter string
+	var hi string
+	switch form {
+	case 0:
+		filter = lo + unit
+	case 1:
+		filter = lo + unit + ":"
+	case 2:
+		filter = ":" + lo + unit
+	case 3:
+		hi = vDigits("hi", nd)
+		filter = lo + unit + ":" + hi + unit
+	}
+	f := parseTagFilterRange(filter)
+	if f == nil {
+		vAssert(false, "C06.range.nil: a well-formed numeric range was not recognised")
+		return
+	}
+	// the reference reads the digits independently
+	num := func(s string) int64 {
+		var n int64
+		for i := 0; i < len(s); i++ {
+			n = n*10 + int64(s[i]-'0')
+		}
+		return n
+	}
+	a := num(lo)
+	scale := int64(1)
+	if unit == "kb" {
+		scale = 1024
+	}
+	v := vInt64("value") // in bytes when a unit is used
+	vAssume(v > -(1 << 30))
+	vAssume(v < 1<<30)
+	probeUnit := ""
+	if unit == "kb" {
+		probeUnit = "b"
+	}
+	got := f(v, probeUnit)
+	var want bool
+	switch form {
+	case 0:
+		want = v == a*scale
+	case 1:
+		want = v >= a*scale
+	case 2:
+		want = v <= a*scale
+	case 3:
+		b := num(hi)
+		want = vAnd(v >= a*scale, v <= b*scale)
+	}
+	vObserve(got)
+	vAssert(got == want, "C06.range.bounds: a numeric range filter does not keep exactly the values inside the range (bounds included)")
 }
